@@ -30,3 +30,17 @@ Fixpoint take_exact {A} (n : nat) (l : list A) : option (list A * list A) :=
 Fixpoint be_acc (acc : N) (b : bytes) : N :=
   match b with [] => acc | x :: r => be_acc (acc * 256 + x)%N r end.
 Definition be_value (b : bytes) : N := be_acc 0 b.
+
+(* number of leading one bits of a byte: u8::leading_ones / (!b).leading_zeros *)
+Fixpoint leading_ones_from8 (n : nat) (bit : N) (b : N) : N :=
+  match n with
+  | O => 0%N
+  | S n' => if N.testbit b bit then (1 + leading_ones_from8 n' (N.pred bit) b)%N else 0%N
+  end.
+Definition leading_ones8 (b : N) : N := leading_ones_from8 8 7%N b.
+
+Definition blen (b : bytes) : N := N.of_nat (length b).
+
+(* n <= length l, decided without converting n to nat first *)
+Definition take_n (n : N) (l : bytes) : option (bytes * bytes) :=
+  if (n <=? blen l)%N then Some (firstn (N.to_nat n) l, skipn (N.to_nat n) l) else None.
